@@ -42,6 +42,8 @@ def normalize(geom):
     # the complement operator to parse consecutive complement operators.
     g = re_compl_cell.sub(r' ^(\1)', g)
     g = re_compl_surf.sub(r' _(', g)
+    # the space added before a complement must not separate it from a preceding ':'
+    g = re_union.sub(':', g)
 
     # remove spaces after '(' and before ')'
     g = re_pareno.sub('(', g)
